@@ -36,7 +36,7 @@ Definition ev_arg (a : option Z) : Z :=
 Definition is_some {T} (o : option T) : bool := match o with Some _ => true | None => false end.
 Definition or1 (o : option Z) : Z := match o with Some v => if v =? 0 then 1 else v | None => 1 end.
 
-(* fixes/C08-failed-motion-cancels-operator.patch: the text-object functions
+(* fixes/C08-failed-motion-minimal.patch: the text-object functions
    e E ge gE g_ j k return None when they fail, and the wrapper treats None
    and an exclusive object with equal ends as "cancel the operator" *)
 Definition cancelled (o : tobj) (failed : bool) : bool :=
@@ -140,5 +140,5 @@ Definition run_C08_gen (patched : bool) (c : sx) : sx :=
 
 (* /repo as it is *)
 Definition run_C08 : sx -> sx := run_C08_gen false.
-(* /repo + fixes/C08-failed-motion-cancels-operator.patch (used only by harness/c08_patched.py) *)
+(* /repo + fixes/C08-failed-motion-minimal.patch (used only by harness/c08_patched.py) *)
 Definition run_C08_patched : sx -> sx := run_C08_gen true.
